@@ -83,6 +83,7 @@ STUB_LIMITED_IO = (
     "LimitedStringIO.write(s): s is realized (solver-enumerated) before the real method runs, "
     "because the C-level StringIO.write it delegates to rejects str proxies"
 )
+STUB_MARKUP = "markupsafe.Markup(x): x is realized and a real Markup built (CrossHair's str construction would drop the subclass)"
 STUB_INTERN = "sys.intern := identity (pathlib interns path segments; C intern rejects str proxies)"
 if os.environ.get("VF_WORKER") == "1":  # pragma: no cover - exercised in workers only
     from crosshair import realize as _realize
@@ -106,6 +107,22 @@ if os.environ.get("VF_WORKER") == "1":  # pragma: no cover - exercised in worker
             self.__dict__["_vf_in_write"] = False
 
     _register_patch(_LSIO.write, _lsio_write_realized)
+
+    # markupsafe.Markup(symbolic str): CrossHair's str construction returns a *plain* symbolic
+    # str, silently dropping the Markup type - every "safe" value then looks unsafe and is
+    # escaped again, which made the C04 conditions vacuously true (caught by the native grid
+    # on a seeded url_decode change).  Realize the text and build a real Markup.
+    from crosshair.tracers import NoTracing as _NoTracing
+
+    _RealMarkup = markupsafe.Markup
+
+    def _markup_ctor(*a, **kw):  # type: ignore[no-untyped-def]
+        ra = [_realize(x) for x in a]
+        rk = {k: _realize(v) for k, v in kw.items()}
+        with _NoTracing():
+            return _RealMarkup(*ra, **rk)
+
+    _register_patch(_RealMarkup, _markup_ctor)
 
     # pathlib interns every path segment (sys.intern is C and rejects proxies); interning
     # is semantically the identity on str.
